@@ -73,7 +73,7 @@ reg("C07", asan=True, crash_is_violation=True,
     level_text="Each sampled operation is computed on x and on x.chunk(c) under a synchronous or threaded scheduler (1-16 workers) and must succeed and equal the in-memory result; chunkings include one element per chunk on every dimension and splits of freq and dir. A stress workload runs watershed partitions of several datasets (different, transposed and equal grid shapes, so the routine's static buffers are re-allocated between threads) in one thread pool on the AddressSanitizer build, five repetitions each, with the switch interval lowered to 10 us; results must equal the serial ones and the worker must not die or report. Held = over the schedules these runs produced (thread switches between native calls are counted in the evidence), not over all schedules.",
     level_note="ThreadSanitizer cannot be loaded into this interpreter (DESIGN.md par.1), so absence of a data race is not claimed: the oracle is result equality + ASan/UBSan silence on the interleavings observed. The C entry point holds the GIL; a GIL release that never interleaves in a run would be missed (validated with a GIL-release mutant).",
     rule="case = (operation x chunking kind x dtype x scheduler x workers x leading dims) and (stress: shape mix x workers x datasets, 5 repetitions); distinct = distinct keys; non-trivial = data actually dask-backed and compared",
-    must_observe=["hs", "tp", "ptm1", "ptm3", "interp", "smooth", "stress"],
+    must_observe=["hs", "tp", "ptm1", "ptm3", "interp", "smooth", "stress", "combined"],
     must_note=["thread_switches_between_native_calls"])
 
 reg("C10",
@@ -152,7 +152,8 @@ reg("C19",
     level_text="np_track_partitions / track_partitions / ptm1_track are run on every history over a 7-state alphabet for (T,P) in {(2,3),(3,2)} (and (4,2) in the thorough tier) and on random histories (appearing, drifting, crossing, disappearing systems, reshuffled partition slots, seam-crossing directions, swept thresholds, T up to 200, P up to 6); each recorded identifier matrix is checked as a whole history. Held = on the histories observed; the exhaustive part is complete for the stated alphabet and lengths.",
     level_note="Trusted: vf/oracle/tracking.py (thresholds recomputed from the documented Ewans-Kibblewhite / Snodgrass expressions with scipy's g). The statement requires soundness of continuation, not maximal matching, so a tracker that links less is not flagged. Changes exactly on a threshold are inconclusive.",
     rule="exhaustive: every history of the alphabet per (T,P); random: (T x P x dt x default|swept thresholds); distinct = distinct keys; every history with >= 1 non-empty partition is non-trivial",
-    must_observe=["history_exhaustive", "history_random", "sites_independent", "ptm1_track", "history_long"],
+    must_observe=["history_exhaustive", "history_random", "sites_independent", "ptm1_track", "ptm1_track_params", "history_long"],
+    must_note=["ptm1_track_identifiers_carried_under_defaults"],
     timeout={"quick": 900, "thorough": 14400})
 
 reg("C13",
